@@ -58,6 +58,10 @@ def run_history(asts, ops):
     with the operand, which later calls may mutate)."""
     orc = IdOracle()
     dit = DeferIt()
+    packed = ast_pack(asts)
+    clean = start_ref().ask([("hist", (packed, ops))])[0]
+    if clean == "job-timeout":
+        return None                       # a call of this history does not return (built-in solver): not run in this process
     with orc:
         objs = build_pool(asts)
         lab = Labeler()
@@ -81,8 +85,6 @@ def run_history(asts, ops):
         dumps1 = [sdump(o) for o in objs]
     # reference 1: the same call on objects rebuilt in this process; reference 2: the same call in a
     # process where nothing else was ever queried (immune to process-wide caches)
-    packed = ast_pack(asts)
-    clean = start_ref().ask([("hist", (packed, ops))])[0]
     for j, ((got_c, want_c), clean_c) in enumerate(zip(gots, clean)):
         if got_c != clean_c:
             diffs.append((j, got_c, clean_c))
@@ -407,6 +409,8 @@ def run(res, tier, seed):
             plain_ok = all(x.bounds.constant is None for o in objs for x in all_nodes(o) if not is_var(x))
             ops = gen_history(rng, g, objs, rng.randint(2, 12), compound=(stream == "d2"), allow_poly=(stream == "main" and plain_ok))
             h = run_history(asts, ops)
+            if h is None:
+                res.count("history_skipped_a_call_did_not_return"); continue
             made += 1
             res.evaluations += len(ops)
             res.count(f"{stream}_histories")
@@ -463,6 +467,8 @@ def run(res, tier, seed):
                 g2.leaves = {x.id: [int(x.bounds.lower), int(x.bounds.upper)] for o in objs for x in all_nodes(o) if is_var(x)}
                 ops2 = gen_history(rng, g2, objs, 12, compound=(stream == "d2"), allow_poly=False)
                 h2 = run_history(asts, ops2)
+                if h2 is None:
+                    continue
                 res.evaluations += len(ops2)
                 if not judge(res, stream, asts, ops2, h2):
                     found = True
@@ -540,6 +546,8 @@ def replay(payload):
     asts = ast_unpack(r["asts"])
     ops = r["ops"]
     h = run_history(asts, ops)
+    if h is None:
+        print("a call of this history does not return in a clean process"); return 1
     bad = 0
     for j, got, want in h["diffs"]:
         d2 = explained_by_d2(asts, ops, j)
